@@ -61,6 +61,20 @@
    rows): full rank, condition number 1, all singular values exactly equal - the degenerate-but-valid
    corner of the domain (they bypass the genericity filter `GoodMimo`).
 
+   Audit round: SVDMimo / GMDMimo inherit set_noise_var, so their canonical history is
+   decode, set_noise_var(1/q), decode, set_noise_var(None), decode, query, decode, rejected, decode
+   (SVD ignores the setting: still x; GMD: the MMSE estimate on the equivalent channel H P sqrt(Nt), a
+   relation `relmmse` evaluated numerically).  Blast with Nt >= 4 runs on the large-channel family with
+   exact encoder / channel output and relation-only receiver.  Blocks have 1, 2, 3 or 5 channel uses.
+   Every 4th MRT / MRC / Alamouti channel is real valued.  High noise (sigma^2 = 4, 16) is part of the
+   exact filter record (`HighNoiseDefining`).
+
+   Ill-conditioned but valid channels: every CgEvery-th Blast / SVD / GMD channel (Nt >= 2) is handed over
+   as H D with the column gains D = diag(10^-e_j), e = 0,2,4,1,3,... (condition number up to 10^4 cond(H)).
+   The law is exact: ZF(H D) = D^-1 ZF(H) (`ColumnScaleLaw`, checked for D = diag(1,2,3)), the transmitted
+   signal does not change, the channel output is H D tx and the zero-forcing decode still returns x.
+   The MMSE side of those channels is relation-only.
+
    Named deviations (fields of Dev) switch single steps to what the code does / did:
      SvdNeedsSquare           SVDMimo.decode raises for Nr > Nt (full SVD, diag(1/S) U^H shape)
      SinrCoherentInterference calc_post_processing_linear_SINRs adds the interfering streams
@@ -89,6 +103,8 @@ CONSTANTS Schemes,   \* subset of {"blast","mrc","mrt","svd","gmd","alamouti"}
           HistDeep,
           Scales,    \* sequence of gain exponents: channel k is handed over as 10^Scales[k % Len + 1] * H
           IsoEvery,  \* every IsoEvery-th channel of blast / svd / gmd is a scaled isometry
+          CgEvery,   \* channels with k % CgEvery = 3 get column gains (ill conditioned)
+          HiNoise,   \* sequence of integer noise variances > 1 (high-noise regime of the MMSE filter)
           QueryQ,    \* the SINR queries inside the histories ask for sigma^2 = 1/QueryQ
           Vanish,    \* sequence of exponents e: noise variances 10^-e along which MMSE -> ZF is followed (rel)
           Dev        \* [name |-> BOOLEAN]
@@ -119,7 +135,7 @@ Fam(sch) == CASE sch \in {"blast", "svd", "gmd"} -> 1
 ShapeOK(sch, nr, nt) == CASE sch = "alamouti" -> nt = 2
                           [] sch = "mrt"      -> nr = 1
                           [] sch = "mrc"      -> nt = 1
-                          [] sch = "blast"    -> nr >= nt /\ nt <= 3 /\ (nr <= 3 \/ nt <= 2)   \* 32-bit bound of the exact filters
+                          [] sch = "blast"    -> nr >= nt /\ (nt >= 4 \/ nr <= 3 \/ nt <= 2)   \* Nt <= 3: exact filters inside 32 bits; Nt >= 4: (rel)
                           [] OTHER            -> nr >= nt
 
 Ints(H) == Eager(MFromInts(H))
@@ -190,18 +206,25 @@ PickBig(nr, nt, k, s, tries) ==
     LET H == BigChannel(nr, nt, k, s)
     IN  IF tries = 0 \/ TopNonSingular(H) THEN H ELSE PickBig(nr, nt, k, LcgIter(s, 7), tries - 1)
 
-ValidFor(sch, H) == CASE sch \in {"svd", "gmd"} /\ Len(H[1]) >= 4 -> TopNonSingular(H)
+\* every 4th MRT / MRC / Alamouti channel is real valued (handed over as int64 / float64 arrays by the harness)
+RealOnly(sch, k) == sch \in {"mrt", "mrc", "alamouti"} /\ k % 4 = 0
+IsReal(H) == ~HasComplex(H)
+ValidFor(sch, H) == CASE sch \in {"blast", "svd", "gmd"} /\ Len(H[1]) >= 4 -> TopNonSingular(H)
                       [] sch \in {"blast", "svd", "gmd"} -> GoodMimo(H)
-                      [] sch = "mrt"      -> HasComplex(H)                    \* hence not null; exact zeros (blocked paths) are allowed
-                      [] sch = "mrc"      -> Frob2Int(H) # 0 /\ (Len(H) > 1 => HasComplex(H))
-                      [] OTHER            -> Frob2Int(H) # 0 /\ HasComplex(H) /\ H[1][1] # H[1][2]
+                      \* not null; exact zeros (blocked paths) are allowed
+                      [] sch = "mrt"      -> Frob2Int(H) # 0 /\ (IsReal(H) \/ HasComplex(H))
+                      [] sch = "mrc"      -> Frob2Int(H) # 0
+                      [] OTHER            -> Frob2Int(H) # 0 /\ H[1][1] # H[1][2]
 
-RECURSIVE PickChan(_, _, _, _, _, _)
-PickChan(sch, alpha, nr, nt, s, tries) ==
+\* re = TRUE: real parts only; re = FALSE: at least one complex entry for the single-stream schemes
+RECURSIVE PickChan(_, _, _, _, _, _, _)
+PickChan(sch, alpha, nr, nt, s, tries, re) ==
     LET ys == TLCEval(LcgSeq(s, nr * nt))
-        H  == Eager([i \in 1..nr |-> [j \in 1..nt |-> Pick(alpha, ys[(i - 1) * nt + j])]])
-    IN  IF tries = 0 \/ ValidFor(sch, H) THEN H
-        ELSE PickChan(sch, alpha, nr, nt, ys[nr * nt], tries - 1)
+        E(y) == IF re THEN <<Pick(alpha, y)[1], 0>> ELSE Pick(alpha, y)
+        H  == Eager([i \in 1..nr |-> [j \in 1..nt |-> E(ys[(i - 1) * nt + j])]])
+        ok == ValidFor(sch, H) /\ (re \/ sch \in {"blast", "svd", "gmd"} \/ HasComplex(H) \/ (sch = "mrc" /\ nr = 1))
+    IN  IF tries = 0 \/ ok THEN H
+        ELSE PickChan(sch, alpha, nr, nt, ys[nr * nt], tries - 1, re)
 
 \* scaled isometry  c * P * diag(phases), zero rows below for tall shapes: all singular values equal c
 IsIso(sch, k) == sch \in {"blast", "svd", "gmd"} /\ k % IsoEvery = 0
@@ -213,12 +236,20 @@ IsoChannel(nr, nt, k, s) ==
     IN  Eager([i \in 1..nr |-> [j \in 1..nt |->
             IF i <= nt /\ RankOf(keys, j) = i THEN <<c * ph[j][1], c * ph[j][2]>> ELSE <<0, 0>>]])
 ScaleOf(k) == Scales[(k % Len(Scales)) + 1]
+\* column gain exponents e_j (the channel is H diag(10^-e_j)); all zero for the ordinary channels
+HasColGain(sch, nt, k) == sch \in {"blast", "svd", "gmd"} /\ nt >= 2 /\ k % CgEvery = 3 /\ ~IsIso(sch, k)
+ColGainOf(sch, nt, k) == [j \in 1..nt |-> IF HasColGain(sch, nt, k) THEN (2 * (j - 1)) % 5 ELSE 0]
+RECURSIVE TenPow(_)
+TenPow(n) == IF n = 0 THEN 1 ELSE 10 * TenPow(n - 1)
+HasCg(c) == \E j \in 1..c.nt : c.cg[j] # 0
+\* 10^4 * H D X  as an integer matrix (X Gaussian integer):  H (X_j 10^(4 - e_j))
+RxTimes1e4(c, X) == Eager(MMul(Ints(c.H), Eager([j \in 1..c.nt |-> [t \in 1..MCols(X) |-> GMul(G(TenPow(4 - c.cg[j]), 0), X[j][t])]])))
 
 ChannelFor(sch, nr, nt, k) ==
     IF IsIso(sch, k) THEN IsoChannel(nr, nt, k, Start((((k * 16 + nr) * 16 + nt) * 5) + 4)) ELSE
-    IF sch \in {"svd", "gmd"} /\ nt >= 4 THEN PickBig(nr, nt, k, Start((((k * 16 + nr) * 16 + nt) * 5) + 3), 20) ELSE
+    IF sch \in {"blast", "svd", "gmd"} /\ nt >= 4 THEN PickBig(nr, nt, k, Start((((k * 16 + nr) * 16 + nt) * 5) + 3), 20) ELSE
     PickChan(sch, IF sch = "mrt" THEN Pyth ELSE Alpha, nr, nt,
-             Start((((k * 5 + nr) * 4 + nt) * 5) + Fam(sch)), 40)
+             Start((((k * 5 + nr) * 4 + nt) * 5) + Fam(sch)), 40, RealOnly(sch, k))
 
 \* one-dimensional channel arguments are accepted by MRT (Nr = 1), MRC (Nt = 1), Alamouti (Nr = 1)
 FormFor(sch, nr, nt, k) ==
@@ -229,13 +260,16 @@ FormFor(sch, nr, nt, k) ==
 Layers(c) == IF c.sch \in {"blast", "svd", "gmd"} THEN c.nt ELSE 1
 \* distinguishing blocks: complex, and such that row- and column-major layouts differ
 GoodData(v) == /\ \E i \in 1..Len(v) : v[i][2] # 0
-               /\ IF Len(v) >= 4 THEN v[2] # v[3] ELSE v[1] # v[2]
+               /\ IF Len(v) >= 4 THEN v[2] # v[3] ELSE IF Len(v) = 1 THEN TRUE ELSE v[1] # v[2]
 RECURSIVE PickData(_, _, _)
 PickData(n, s, tries) ==
     LET ys == TLCEval(LcgSeq(s, n))
         v  == EagerSeq([i \in 1..n |-> Pick(Syms, ys[i])])
     IN  IF tries = 0 \/ GoodData(v) THEN v ELSE PickData(n, ys[n], tries - 1)
-BlockLen(c, d) == IF c.sch = "alamouti" THEN (IF d % 2 = 0 THEN 4 ELSE 2) ELSE 2 * Layers(c)
+\* channel uses per block: 1 (a single column), 2, 3, 5 - chosen by channel and block index
+BlockUses == <<2, 1, 3, 5>>
+UsesOf(c, d) == BlockUses[((c.k + d) % Len(BlockUses)) + 1]
+BlockLen(c, d) == IF c.sch = "alamouti" THEN 2 * UsesOf(c, d) ELSE UsesOf(c, d) * Layers(c)
 DataFor(c, d)  == PickData(BlockLen(c, d), Start(7 + 11 * ((((c.k * 5 + c.nr) * 4 + c.nt) * 5 + Fam(c.sch)) * 4 + d)), 40)
 
 Vec(v)   == [n \in 1..Len(v) |-> G(v[n][1], v[n][2])]
@@ -290,13 +324,21 @@ EncodeOf(c, v) == CASE c.sch \in {"blast", "mrc"} -> BlastEncode(c.nt, v)
                     [] OTHER              -> Rel                                  \* svd, gmd: unitary / sqrt(Nt)
 
 DecodeOf(c, r, v, qv) ==
-    CASE c.sch \in {"blast", "mrc"} -> [kind |-> "exact", v |-> BlastDecode(Ints(c.H), r.m, qv)]
+    CASE c.sch \in {"blast", "mrc"} /\ c.nt <= 3 /\ ~HasCg(c) -> [kind |-> "exact", v |-> BlastDecode(Ints(c.H), r.m, qv)]
+      \* column gains: ZF(H D) = D^-1 ZF(H) applied to H D tx (integers times 10^-4); row j is divided by 10^-e_j
+      [] c.sch = "blast" /\ c.nt <= 3 /\ qv = 0 ->
+             LET Z == ZfOf(Ints(c.H))
+                 Y == Eager(MMul(Z.num, RxTimes1e4(c, ColMajor(v, c.nt))))
+             IN  [kind |-> "exact", v |-> UnColMajor(Eager([j \in 1..c.nt |-> [t \in 1..MCols(Y) |->
+                                             GNorm(Y[j][t][1], Y[j][t][2], Z.den * TenPow(4 - c.cg[j]))]]))]
       [] c.sch = "mrt"      -> [kind |-> "exact", v |-> MrtDecode(c.H[1], r.m)]
       [] c.sch = "alamouti" -> [kind |-> "exact", v |-> AlaDecode(Ints(c.H), r.m)]
       [] c.sch = "svd" /\ Dev.SvdNeedsSquare /\ c.nr > c.nt -> [kind |-> "raised", v |-> None]
       [] c.sch = "gmd" /\ Dev.GmdAbsoluteTol /\ c.sc <= -6    -> [kind |-> "raised", v |-> None]
       [] c.sch = "gmd" /\ Dev.GmdTieBreaks /\ c.iso /\ c.nt >= 2 -> [kind |-> "raised", v |-> None]
-      [] OTHER              -> [kind |-> "rel", v |-> v]                          \* ideal link
+      \* MMSE estimate on the equivalent channel H W sqrt(Nt) (W = I/sqrt(Nt) for Blast, P/sqrt(Nt) for GMD): (rel)
+      [] c.sch \in {"blast", "gmd"} /\ qv > 0 -> [kind |-> "relmmse", v |-> v]
+      [] OTHER              -> [kind |-> "rel", v |-> v]                          \* ideal link (SVD ignores the noise setting)
 
 \* receiver scale^2 of each scheme (the transmitter's is tx.s2)
 RxScale2(c) == CASE c.sch \in {"blast", "mrc", "svd", "gmd", "mrt"} -> <<c.nt, 1>>  [] OTHER -> <<2, 1>>
@@ -338,11 +380,21 @@ BlastFilters(c) ==
                  sinrCoh |-> [k \in 1..c.nt |-> SinrB(qv, c.nt, En, F.num, k, TRUE)],       \* as-is prediction
                  sinrUse |-> [k \in 1..c.nt |-> SinrB(qv, c.nt, En, F.num, k, Dev.SinrCoherentInterference)]]
         qs == Qs[c.nt]
+        \* high noise  sigma^2 = sn > 1:  (G + sn I)^-1 H^H = adj(G + sn I) H^H / det(G + sn I)
+        PerS(sn) == LET A == Eager(MAdd(Gm, MScale(G(sn, 0), MIdent(c.nt))))
+                        N == Eager(MMul(Eager(MAdj(A)), HH))
+                        dA == Re(MDet(A))
+                    IN  [s |-> sn, num |-> IntsOf(N), den |-> dA, defOK |-> MMul(A, N) = MScale(G(dA, 0), HH)]
     IN  [kind |-> "blast",
+         hn |-> [i \in 1..Len(HiNoise) |-> PerS(HiNoise[i])],
          zf |-> [num |-> IntsOf(Z.num), den |-> Z.den],
          zfLeft |-> (Ez = MScale(G(Z.den, 0), MIdent(c.nt))),                         \* ZF H = I
          zfDef  |-> (MMul(Gm, Z.num) = MScale(G(Z.den, 0), HH)),                      \* (H^H H) ZF = H^H
          \* gain law:  ZF(2H) = ZF(H)/2  and  MMSE(2H, 4 s) = MMSE(H, s)/2  (s = 1/4)
+         \* column gain law  ZF(H D) = D^-1 ZF(H)  for D = diag(1, 2, 3):   D Zd.num Z.den = Z.num Zd.den
+         zfCol |-> LET Dm == Eager([i \in 1..c.nt |-> [j \in 1..c.nt |-> IF i = j THEN G(i, 0) ELSE GZero]])
+                       Zd == ZfOf(Eager(MMul(Hm, Dm)))
+                   IN  MScale(G(Z.den, 0), MMul(Dm, Zd.num)) = MScale(G(Zd.den, 0), Z.num),
          zfGain |-> (MScale(G(2 * Z.den, 0), Z2g.num) = MScale(G(Z2g.den, 0), Z.num)),
          mmGain |-> LET F1 == MmseOf(Hm, 4)  F2 == MmseOf(H2, 1)
                     IN  MScale(G(2 * F1.den, 0), F2.num) = MScale(G(F2.den, 0), F1.num),
@@ -371,7 +423,7 @@ SetChannel(sch, nr, nt, k) ==
     /\ LET H == ChannelFor(sch, nr, nt, k)
        IN  /\ IsIso(sch, k) \/ ValidFor(sch, H)
            /\ cs' = [sch |-> sch, nr |-> nr, nt |-> nt, k |-> k, H |-> H, form |-> FormFor(sch, nr, nt, k),
-                     sc |-> ScaleOf(k), iso |-> IsIso(sch, k)]
+                     sc |-> ScaleOf(k), iso |-> IsIso(sch, k), cg |-> ColGainOf(sch, nt, k)]
     /\ stage' = "chan"
     /\ UNCHANGED <<x, tx, rx, q, out, flt, hist, decs, cache, chanOK, dn>>
 
@@ -385,23 +437,33 @@ Encode(d) ==
     /\ UNCHANGED <<cs, rx, q, out, flt, hist, decs, cache, chanOK>>
 
 \* noise settings of the receiver: 0 = zero forcing, q > 0 = MMSE with sigma^2 = 1/q
-DecSeq(c)  == IF c.sch \in {"blast", "mrc"} THEN <<0>> \o DecQs[c.nt] ELSE <<0>>
+DecQsOf(c) == DecQs[IF c.nt > Len(DecQs) THEN Len(DecQs) ELSE c.nt]
+HasNoiseSetting(c) == c.sch \in {"blast", "mrc", "svd", "gmd"}            \* the classes with set_noise_var
+DecSeq(c)  == IF c.sch = "blast" /\ c.nt <= 3 /\ HasCg(c) THEN <<0>>            \* exact side of H D: zero forcing only
+              ELSE IF c.sch \in {"blast", "mrc"} THEN <<0>> \o DecQsOf(c)
+              ELSE IF HasNoiseSetting(c) THEN <<0, DecQsOf(c)[1]>> ELSE <<0>>
 \* arguments of set_noise_var: -1 = None, 0 = 0.0, q > 0 = 1/q
-NvArgs(c)  == {-1, 0} \cup {DecQs[c.nt][i] : i \in 1..Len(DecQs[c.nt])}
+NvArgs(c)  == {-1, 0} \cup {DecSeq(c)[i] : i \in 1..Len(DecSeq(c))}
 NvAll      == {-1, 0} \cup UNION {{DecQs[n][i] : i \in 1..Len(DecQs[n])} : n \in DOMAIN DecQs}
 \* step kinds in a history:  -1 / 0 / q>0 set_noise_var,  -2 decode,  -3 query bundle,  -6 rejected bundle
 Canon == <<-2, -3, -2, -6, -2>>                     \* schemes without receiver state: one canonical history
 Stateful(c) == c.sch \in {"blast", "mrc"}
-HistLenOf(c, d) == IF Stateful(c) THEN (IF c.k % HistEvery = 0 /\ d = 1 THEN HistDeep ELSE 2) ELSE Len(Canon)
+\* SVD / GMD: the inherited noise setting is part of the canonical history
+CanonOf(c) == IF c.sch \in {"svd", "gmd"} THEN <<-2, DecQsOf(c)[1], -2, -1, -2, -3, -2, -6, -2>> ELSE Canon
+HistLenOf(c, d) == IF Stateful(c) THEN (IF c.k % HistEvery = 0 /\ d = 1 /\ c.nt <= 3 THEN HistDeep ELSE 2) ELSE Len(CanonOf(c))
 HistLen(c) == HistLenOf(c, dn)
-StepOK(a)  == Stateful(cs) \/ a = Canon[Len(hist) + 1]
+StepOK(a)  == Stateful(cs) \/ a = CanonOf(cs)[Len(hist) + 1]
 OutFor(qq) == LET i == CHOOSE i \in 1..Len(decs) : decs[i].q = qq IN decs[i].out
 
 \* the channel output; what a decode must return for every noise setting is fixed here (a pure function
 \* of channel, data and setting), the history below only selects
 Transmit ==
     /\ stage = "enc"
-    /\ LET r  == IF tx.kind = "exact" THEN Exact(Eager(MMul(Ints(cs.H), tx.m)), tx.s2) ELSE Rel
+    /\ LET r  == IF tx.kind # "exact" THEN Rel
+                 ELSE IF HasCg(cs)
+                      THEN LET Y == RxTimes1e4(cs, tx.m)
+                           IN  Exact(Eager([i \in 1..MRows(Y) |-> [t \in 1..MCols(Y) |-> GNorm(Y[i][t][1], Y[i][t][2], 10000)]]), tx.s2)
+                      ELSE Exact(Eager(MMul(Ints(cs.H), tx.m)), tx.s2)
            ds == DecSeq(cs)
        IN  /\ rx' = r
            /\ decs' = [i \in 1..Len(ds) |-> [q |-> ds[i], out |-> DecodeOf(cs, r, Vec(x), ds[i])]]
@@ -411,9 +473,10 @@ Transmit ==
 \* set_noise_var(None | 0.0 | 1/a) on the object that has decoded before (or not)
 SetNoiseVar(a) ==
     /\ stage \in {"rx", "dec"}
-    /\ cs.sch \in {"blast", "mrc"}
+    /\ HasNoiseSetting(cs)
     /\ a \in NvArgs(cs)
     /\ Len(hist) < HistLen(cs) - 1                                  \* a history ends with a decode
+    /\ StepOK(a)
     /\ q' = IF a <= 0 THEN 0 ELSE a
     /\ cache' = IF a = -1 /\ Dev.NvNoneKeepsFilter THEN cache ELSE NoCache
     /\ hist' = Append(hist, [a |-> a, q |-> q'])
@@ -425,7 +488,7 @@ Query ==
     /\ stage \in {"rx", "dec"}
     /\ Len(hist) < HistLen(cs) - 1
     /\ StepOK(-3)
-    /\ q' = IF Dev.QuerySetsNoiseVar /\ Stateful(cs) THEN DecQs[cs.nt][1] ELSE q
+    /\ q' = IF Dev.QuerySetsNoiseVar /\ Stateful(cs) THEN DecQsOf(cs)[1] ELSE q
     /\ cache' = IF Dev.QuerySetsNoiseVar /\ Stateful(cs) THEN NoCache ELSE cache
     /\ hist' = Append(hist, [a |-> -3, q |-> q'])
     /\ stage' = "rx"
@@ -455,9 +518,16 @@ Decode ==
 
 Filters ==
     /\ stage = "chan"
-    /\ cs.sch \in {"blast", "mrc", "mrt", "alamouti"}
+    /\ cs.sch \in {"blast", "mrc", "mrt", "alamouti", "gmd"}
     /\ flt' = CASE cs.sch = "mrt" -> MrtFilters(cs)
                 [] cs.sch = "alamouti" -> AlaFilters(cs)
+                \* GMD and Blast with Nt >= 4: the receive filter on the equivalent channel Heq = H W sqrt(Nt),
+                \* observed column by column through decode; the relations are evaluated numerically (rel)
+                [] cs.sch = "gmd" \/ cs.nt >= 4 \/ HasCg(cs) ->
+                       [kind |-> "rel",
+                        zfx |-> IF cs.sch = "blast" /\ cs.nt <= 3
+                                THEN LET Z == ZfOf(Ints(cs.H)) IN [num |-> IntsOf(Z.num), den |-> Z.den] ELSE None, qs |-> Qs[IF cs.nt > Len(Qs) THEN Len(Qs) ELSE cs.nt], hn |-> HiNoise, vanish |-> Vanish,
+                        req |-> <<"ZfLeftInverseOnEquivalentChannel", "MmseDefiningOnEquivalentChannel", "MmseWithinBoundOfZf">>]
                 [] OTHER -> BlastFilters(cs)
     /\ stage' = "flt"
     /\ UNCHANGED <<cs, x, tx, rx, q, out, hist, decs, cache, chanOK, dn>>
@@ -517,7 +587,9 @@ MmseTendsToZf ==
         /\ \A i \in 1..Len(flt.mm) : ~BIsZero(flt.mm[i].S)
         /\ \A i \in 1..(Len(flt.mm) - 1) :
                BLt(BMul(flt.mm[i + 1].S, flt.mm[i].den2), BMul(flt.mm[i].S, flt.mm[i + 1].den2))
+HighNoiseDefining == (stage = "flt" /\ flt.kind = "blast") => \A i \in 1..Len(flt.hn) : flt.hn[i].defOK
 ScaleLaw == (stage = "flt" /\ flt.kind = "blast") => (flt.zfGain /\ flt.mmGain)
+ColumnScaleLaw == (stage = "flt" /\ flt.kind = "blast") => flt.zfCol
 \* the quantitative form of "tends to": ||MMSE(s) - ZF||_F <= s ||(H^H H)^-1||_F ||ZF||_F for every s > 0
 \* (from MMSE - ZF = -s (G + s I)^-1 ZF); a theorem of the definitions, checked here on the enumerated s and
 \* handed to the harness as the relation it follows down to s = 10^-16 (flt.vanish)
@@ -541,15 +613,15 @@ BadLengthRaises == stage = "bad" => (out.kind = "raised" /\ Len(x) % cs.nt # 0)
 (* ------------------------------ emission ------------------------------------------------ *)
 Emit ==
     IF stage' = "dec" /\ Len(hist') = HistLenOf(cs', dn') THEN
-        EmitCase([op |-> "link", sch |-> cs'.sch, nr |-> cs'.nr, nt |-> cs'.nt, k |-> cs'.k, form |-> cs'.form, sc |-> cs'.sc, iso |-> cs'.iso,
+        EmitCase([op |-> "link", sch |-> cs'.sch, nr |-> cs'.nr, nt |-> cs'.nt, k |-> cs'.k, form |-> cs'.form, sc |-> cs'.sc, iso |-> cs'.iso, cg |-> cs'.cg,
                   H |-> cs'.H, x |-> x', layers |-> Layers(cs'), tx |-> tx', rx |-> rx', steps |-> hist', decs |-> decs', laws |-> Laws, qq |-> QueryQ,
                   energy |-> RDiv(Energy(Vec(x')), <<Len(x'), 1>>),
                   req |-> IF tx'.kind = "rel" THEN <<"DecodeEqualsData", "EnergyPreserved">> ELSE <<>>])
     ELSE IF stage' = "flt" THEN
-        EmitCase([op |-> "filters", sch |-> cs'.sch, nr |-> cs'.nr, nt |-> cs'.nt, k |-> cs'.k, form |-> cs'.form, sc |-> cs'.sc, iso |-> cs'.iso,
+        EmitCase([op |-> "filters", sch |-> cs'.sch, nr |-> cs'.nr, nt |-> cs'.nt, k |-> cs'.k, form |-> cs'.form, sc |-> cs'.sc, iso |-> cs'.iso, cg |-> cs'.cg,
                   H |-> cs'.H, flt |-> flt'])
     ELSE IF stage' = "bad" THEN
-        EmitCase([op |-> "badlen", sch |-> cs'.sch, nr |-> cs'.nr, nt |-> cs'.nt, k |-> cs'.k, form |-> cs'.form, sc |-> cs'.sc, iso |-> cs'.iso,
+        EmitCase([op |-> "badlen", sch |-> cs'.sch, nr |-> cs'.nr, nt |-> cs'.nt, k |-> cs'.k, form |-> cs'.form, sc |-> cs'.sc, iso |-> cs'.iso, cg |-> cs'.cg,
                   H |-> cs'.H, x |-> x', out |-> out'])
     ELSE TRUE
 =============================================================================
